@@ -1,5 +1,5 @@
 def mk(name, entry, n, tier, fn, count, canaries=(), timeout=900):
-    return dict(name=name, properties=["C15"], entry=entry, mode="plain", units=["harness.c"],
+    return dict(name=name, slow=True, properties=["C15"], entry=entry, mode="plain", units=["harness.c"],
                 defines=["NMAX=%d" % n] + ([] if count else ["NOCOUNT"]),
                 unwind=n + 3, cbmc_unwindset=["%s.0:8" % fn], backend="kissat", tier=tier, timeout=timeout, min_tagged=3,
                 title="prioq.c %s: heap order%s for every heap of <= %d elements" % (fn, ", size and multiset of elements preserved" if count else " and size", n + 1),
